@@ -640,3 +640,36 @@ def set_bounds_order(ctx, cls, start):
     ctx.ensure("all-parameters-inside-their-bounds", ok_in)
     ctx.ensure("independent-of-keyword-order", ok_same)
     ctx.ensure("inside=>kept,outside=>default-from-bounds", ok_keep)
+
+
+@contract(P, "CovModel.setters/NaN-is-outside-every-bound",
+          params={"cls": ["Gaussian", "Stable", "TPLStable"], "what": ["var", "len_scale", "nugget", "opt", "ctor-var", "ctor-len_scale"]},
+          functions=["covmodel/tools.py:check_arg_in_bounds", "covmodel/tools.py:check_arg_bounds",
+                     "covmodel/base.py:CovModel._set_checked"],
+          bounded="native run: NaN assigned to one parameter of a 2-D model")
+def nan_rejected(ctx, cls, what):
+    """'values outside bounds are always rejected': NaN is not inside any interval; an assignment of NaN raises
+    ValueError and leaves the model unchanged, a constructor call with NaN raises"""
+    from gsvc import symrun as _sr
+    with _sr.native():
+        nan = float("nan")
+        if what.startswith("ctor"):
+            try:
+                _quiet(getattr(gs, cls), dim=2, **{what[5:]: nan})
+                ok = False
+            except ValueError:
+                ok = True
+        else:
+            m = _quiet(getattr(gs, cls), dim=2, var=1.5, len_scale=3.0, nugget=0.2)
+            name = what if what != "opt" else (list(m.opt_arg)[0] if m.opt_arg else None)
+            if name is None:
+                ok = True
+            else:
+                before = {k: getattr(m, k) for k in ("var", "len_scale", "nugget") + tuple(m.opt_arg)}
+                try:
+                    setattr(m, name, nan)
+                    ok = False
+                except ValueError:
+                    after = {k: getattr(m, k) for k in before}
+                    ok = all(float(before[k]) == float(after[k]) for k in before)
+    ctx.ensure("NaN-rejected,state-unchanged", ok)
